@@ -149,6 +149,107 @@ def _propagate_constants(repo, ref_names):
     return n
 
 
+def _display(e, depth=0):
+    """a literal display whose leaves are constants or plain name chains (class references)"""
+    if isinstance(e, ast.Constant):
+        return isinstance(e.value, SCALAR)
+    if isinstance(e, (ast.Name, ast.Attribute)):
+        return _plain(e) and depth > 0
+    if isinstance(e, (ast.Tuple, ast.List, ast.Set)) and depth < 3:
+        return len(e.elts) <= 64 and all(_display(x, depth + 1) for x in e.elts)
+    if isinstance(e, ast.Dict) and depth < 3:
+        return len(e.keys) <= 64 and all(k is not None and _display(k, depth + 1) for k in e.keys) and all(_display(v, depth + 1) for v in e.values)
+    return False
+
+
+def _canon_name(n):
+    return n.strip('_').lower()
+
+
+MUTATING = ('append', 'extend', 'insert', 'remove', 'pop', 'clear', 'update', 'setdefault', 'add', 'discard', 'sort', 'reverse', 'popitem')
+
+
+def _relocalise_constants(repo, ref_names, ref_shapes):
+    """A literal table moved from a function into a new class-level (or module-level) constant is given back to the functions that had a local of that
+    name in the reference tree:   NAME = {..} in the class + Cls.NAME in f   ->   name = {..} at the top of f + name   (the table is never mutated or rebound)."""
+    n = 0
+    for m in repo.modules.values():
+        cands = {}
+        for node in ast.walk(m.tree):
+            owner = node if isinstance(node, ast.ClassDef) else None
+            if owner is None and not isinstance(node, ast.Module):
+                continue
+            for st in node.body:
+                tgt = None
+                if isinstance(st, ast.Assign) and len(st.targets) == 1 and isinstance(st.targets[0], ast.Name):
+                    tgt, val = st.targets[0].id, st.value
+                elif isinstance(st, ast.AnnAssign) and isinstance(st.target, ast.Name) and st.value is not None:
+                    tgt, val = st.target.id, st.value
+                if tgt is None or not _display(val) or isinstance(val, ast.Constant):
+                    continue
+                qual = '%s:%s%s' % (m.name, (owner._qualname + '.') if owner is not None else '', tgt)
+                if qual not in ref_names:
+                    cands[(owner.name if owner is not None else None, tgt)] = val
+        if not cands:
+            continue
+        for node in ast.walk(m.tree):
+            if isinstance(node, ast.Attribute) and isinstance(node.ctx, (ast.Store, ast.Del)):
+                for k in [k for k in cands if k[1] == node.attr]:
+                    del cands[k]
+            if isinstance(node, ast.Call) and isinstance(node.func, ast.Attribute) and node.func.attr in MUTATING:
+                b = node.func.value
+                nm = b.attr if isinstance(b, ast.Attribute) else (b.id if isinstance(b, ast.Name) else None)
+                for k in [k for k in cands if k[1] == nm]:
+                    del cands[k]
+            if isinstance(node, (ast.Subscript,)) and isinstance(node.ctx, (ast.Store, ast.Del)):
+                b = node.value
+                nm = b.attr if isinstance(b, ast.Attribute) else (b.id if isinstance(b, ast.Name) else None)
+                for k in [k for k in cands if k[1] == nm]:
+                    del cands[k]
+        if not cands:
+            continue
+        for func in [x for x in ast.walk(m.tree) if isinstance(x, (ast.FunctionDef, ast.AsyncFunctionDef))]:
+            key = '%s:%s' % (m.name, func._qualname)
+            if key not in ref_shapes:
+                continue
+            ref_locals = {nm for _, ns in ref_shapes[key] for nm in ns}
+            stored = {x.id for x in _own(func) if isinstance(x, ast.Name) and isinstance(x.ctx, (ast.Store, ast.Del))} | {a.arg for a in func.args.args}
+            cls_name = func._cls.name if getattr(func, '_cls', None) is not None else None
+            for (owner, name), val in cands.items():
+                local = [r for r in ref_locals if _canon_name(r) == _canon_name(name)]
+                if len(local) != 1 or local[0] in stored:
+                    continue
+                uses = []
+                for x in _own(func):
+                    if owner is not None and isinstance(x, ast.Attribute) and x.attr == name and isinstance(x.ctx, ast.Load) and isinstance(x.value, ast.Name) and (x.value.id == owner or (x.value.id in ('self', 'cls') and cls_name == owner)):
+                        uses.append(x)
+                    if owner is None and isinstance(x, ast.Name) and x.id == name and isinstance(x.ctx, ast.Load):
+                        uses.append(x)
+                if not uses:
+                    continue
+
+                class R(ast.NodeTransformer):
+                    def visit_FunctionDef(self, node):
+                        return node if node is not func else self.generic_visit(node)
+
+                    visit_AsyncFunctionDef = visit_FunctionDef
+                    visit_Lambda = visit_FunctionDef
+
+                    def visit_Attribute(self, node):
+                        self.generic_visit(node)
+                        return ast.copy_location(ast.Name(id=local[0], ctx=ast.Load()), node) if node in uses else node
+
+                    def visit_Name(self, node):
+                        return ast.copy_location(ast.Name(id=local[0], ctx=ast.Load()), node) if node in uses else node
+                R().visit(func)
+                first = func.body[0]
+                func.body.insert(0, ast.copy_location(ast.Assign(targets=[ast.Name(id=local[0], ctx=ast.Store())], value=_clone(val)), first))
+                stored.add(local[0])
+                n += 1
+        ast.fix_missing_locations(m.tree)
+    return n
+
+
 # ------------------------------------------------------------------------------------------------------------------------
 # startswith / endswith with a tuple
 # ------------------------------------------------------------------------------------------------------------------------
@@ -615,10 +716,16 @@ def _calls(func, name):
                 yield x
 
 
-def phase_b(repo, ref_funcs, ref_names):
+def phase_b(repo, ref_funcs, ref_names, ref_shapes=None):
     """Returns {description: count} of what was substituted back."""
     from .core import _annotate
     applied = {}
+    if ref_names and ref_shapes:
+        n = _relocalise_constants(repo, ref_names, ref_shapes)
+        if n:
+            applied['<new constant tables given back to their functions>'] = n
+            for m in repo.modules.values():
+                _annotate(m.tree, m)
     n = _propagate_constants(repo, ref_names) if ref_names else 0
     if n:
         applied['<new constants propagated>'] = n
